@@ -38,7 +38,53 @@ func isSortCallOn(info *types.Info, call *ast.CallExpr, obj types.Object) bool {
 	if ce, ok := a.(*ast.CallExpr); ok && len(ce.Args) == 1 {
 		a = ast.Unparen(ce.Args[0])
 	}
-	return identObj(info, a) == obj
+	return identObj(info, a) == obj && sortIsTotal(info, call, name)
+}
+
+// sortIsTotal: a sort with a comparator literal only fixes the order of the
+// collected keys when the comparator can tell distinct keys apart. A literal
+// whose every comparison is made on derived values (strings.ToLower(x[i]) <
+// strings.ToLower(x[j]), len(..) < len(..)) leaves ties - distinct keys with
+// the same derived value - in the order they came out of the map. Named
+// comparators are the business of C13.
+func sortIsTotal(info *types.Info, call *ast.CallExpr, name string) bool {
+	switch name {
+	case "sort.Slice", "sort.SliceStable", "slices.SortFunc", "slices.SortStableFunc":
+	default:
+		return true
+	}
+	if len(call.Args) < 2 {
+		return true
+	}
+	fl, ok := ast.Unparen(call.Args[1]).(*ast.FuncLit)
+	if !ok {
+		return true
+	}
+	raw, any := false, false
+	ast.Inspect(fl.Body, func(n ast.Node) bool {
+		switch t := n.(type) {
+		case *ast.BinaryExpr:
+			switch t.Op {
+			case token.LSS, token.GTR, token.LEQ, token.GEQ:
+				any = true
+				if !containsCall(t.X) && !containsCall(t.Y) {
+					raw = true
+				}
+			}
+		case *ast.CallExpr:
+			if f := calleeFunc(info, t); f != nil {
+				switch f.Origin().FullName() {
+				case "strings.Compare", "cmp.Compare", "bytes.Compare":
+					any = true
+					if len(t.Args) == 2 && !containsCall(t.Args[0]) && !containsCall(t.Args[1]) {
+						raw = true
+					}
+				}
+			}
+		}
+		return true
+	})
+	return raw || !any
 }
 
 // analyseMapLoops classifies every range-over-map in the given packages.
